@@ -732,6 +732,8 @@ pub fn replay_bounded(unit: &str) -> Option<i32> {
         "b_c06_pipeline_defaults" => run_grid(unit, contract_pipeline_integer_defaults, limit),
         "b_c03_pipeline_tag_matrix" => run_grid(unit, contract_pipeline_tag_matrix, limit),
         "b_c06_pipeline_widths" => run_grid(unit, contract_pipeline_integer_widths, limit),
+        "b_c04_pipeline_references" => run_grid(unit, contract_pipeline_bound_references, limit),
+        "b_c02_pipeline_recursion" => run_grid(unit, contract_pipeline_recursion, limit),
         "b_c02_pipeline_type_shapes" => run_grid(unit, contract_pipeline_type_shapes_quick, limit),
         "b_c02_pipeline_type_shapes_full" => run_grid(unit, contract_pipeline_type_shapes_full, limit),
         "b_c04_pipeline_set_expressions" => run_grid(unit, contract_pipeline_set_expressions, limit),
@@ -2427,7 +2429,7 @@ pub fn contract_parameterized_components<C: Ctx>(cx: &mut C) {
         let (actual, rust) = [("INTEGER", "Integer"), ("BOOLEAN", "bool"), ("Other", "Other")][cx.choose(3)];
         let set = cx.any_bool();
         let kw = if set { "SET" } else { "SEQUENCE" };
-        let src = format!("M DEFINITIONS AUTOMATIC TAGS ::= BEGIN Other ::= NULL Pair {{T}} ::= {kw} {{ first T, opt T OPTIONAL, list SEQUENCE OF T, bag SET OF T, alt CHOICE {{ one T, many SET OF T, more SEQUENCE OF T }} }} Inst ::= Pair {{ {actual} }} END");
+        let src = format!("M DEFINITIONS AUTOMATIC TAGS ::= BEGIN Other ::= NULL Pair {{T}} ::= {kw} {{ first T, opt T OPTIONAL, list SEQUENCE OF T, bag SET OF T, alt CHOICE {{ one T, many SET OF T, more SEQUENCE OF T }} }} Inst ::= Pair {{ {actual} }} Wrap {{T}} ::= SEQUENCE {{ w T }} Holder ::= SEQUENCE {{ list SEQUENCE OF SEQUENCE {{ item Wrap {{ {actual} }}, n INTEGER }} }} Top ::= SET OF SEQUENCE {{ item Wrap {{ {actual} }} }} END");
         cx.describe(|| src.clone());
         let out = crate::Compiler::<crate::generator::rasn::Rasn, _>::new().add_asn_literal(&src).compile_to_string();
         let Ok(res) = out else { vob!(cx, "C02.parameterized.compiles", false); return; };
@@ -2437,6 +2439,9 @@ pub fn contract_parameterized_components<C: Ctx>(cx: &mut C) {
         vob!(cx, "C02.parameterized.every_component_position_gets_the_actual_parameter",
             has(&fields, "first", rust) && has(&fields, "opt", &format!("Option < {rust} >")) && has(&fields, "list", &format!("SequenceOf < {rust} >")) && has(&fields, "bag", &format!("SetOf < {rust} >"))
             && has(&alts, "one", rust) && has(&alts, "many", &format!("SetOf < {rust} >")) && has(&alts, "more", &format!("SequenceOf < {rust} >")));
+        // a parameterized reference inside a constructed ELEMENT type of a collection is instantiated as well: no field may
+        // name the uninstantiated template `Wrap`
+        vob!(cx, "C02.parameterized.reference_inside_a_collection_element_is_instantiated", !res.generated.contains(": Wrap ,") && !res.generated.contains(": Wrap }") && res.generated.contains("pub item :"));
         vob!(cx, "C02.parameterized.no_dummy_parameter_survives", !res.generated.contains("< T >") && !res.generated.contains("(T)") && !res.generated.contains(": T ,"));
     }
     #[cfg(kani)]
@@ -2523,6 +2528,10 @@ pub fn contract_pipeline_tag_matrix<C: Ctx>(cx: &mut C) {
             vob!(cx, "C03.matrix.type_assignment_tag_is_applied_with_class_number_and_mode", ok);
         } else {
             vob!(cx, "C03.matrix.component_tag_is_applied_with_class_number_and_mode", ok);
+        }
+        // the tag is applied once: not repeated on a type hoisted out of the tagged component
+        if p < 5 && !(d == 3 && k == 0) {
+            vob!(cx, "C03.matrix.tag_is_applied_exactly_once", g.matches(&format!("({class_out} , {n})")).count() == 1);
         }
         // automatic tagging: exactly when the module says AUTOMATIC TAGS and no component of that very type is tagged
         if (1..=4).contains(&p) {
@@ -2677,7 +2686,9 @@ pub fn contract_pipeline_extensibility<C: Ctx>(cx: &mut C) {
         if !cx.assume(!(kind == 1 && adds.iter().any(|a| *a > 0))) { return; }
         // ... and a version number inside a group of a CHOICE
         if !cx.assume(!(kind == 2 && adds.iter().any(|a| *a == 3))) { return; }
-        let comp = |name: &str| if kind == 2 { format!("{name} BOOLEAN") } else { format!("{name} BOOLEAN OPTIONAL") };
+        // every component of one module has the same type, taken from types that go through different emission branches
+        let comp_ty = ["BOOLEAN", "UTF8String", "IA5String (SIZE(1..4))", "INTEGER (0..5)", "Ref", "SET OF BOOLEAN"][cx.choose(6)];
+        let comp = |name: &str| if kind == 2 { format!("{name} {comp_ty}") } else { format!("{name} {comp_ty} OPTIONAL") };
         let mut items: Vec<String> = (0..n_root).map(|i| comp(&format!("r{i}"))).collect();
         if marker { items.push("...".into()); }
         // expected members after the marker: (name, is_group, grouped names)
@@ -2692,7 +2703,7 @@ pub fn contract_pipeline_extensibility<C: Ctx>(cx: &mut C) {
         let ty = format!("{} {{ {} }}", ["SEQUENCE", "SET", "CHOICE"][kind], items.join(", "));
         let body = if nested { format!("T ::= SEQUENCE {{ w {ty} }}") } else { format!("T ::= {ty}") };
         cx.describe(|| format!("{}{body}", if implied { "EXTENSIBILITY IMPLIED: " } else { "" }));
-        let src = format!("M DEFINITIONS AUTOMATIC TAGS {}::= BEGIN {body} END", if implied { "EXTENSIBILITY IMPLIED " } else { "" });
+        let src = format!("M DEFINITIONS AUTOMATIC TAGS {}::= BEGIN Ref ::= NULL {body} END", if implied { "EXTENSIBILITY IMPLIED " } else { "" });
         let out = crate::Compiler::<crate::generator::rasn::Rasn, _>::new().add_asn_literal(&src).compile_to_string();
         let Ok(res) = out else { vob!(cx, "C05.pipeline.compiles", false); return; };
         let g = &res.generated;
@@ -2871,13 +2882,74 @@ pub fn contract_pipeline_type_shapes<C: Ctx>(cx: &mut C, max_n: usize) {
 pub fn contract_pipeline_type_shapes_quick<C: Ctx>(cx: &mut C) { contract_pipeline_type_shapes(cx, 2) }
 pub fn contract_pipeline_type_shapes_full<C: Ctx>(cx: &mut C) { contract_pipeline_type_shapes(cx, 3) }
 
+/// C04 — value references in bounds, whole pipeline: a bound written as a value reference — local, imported, or qualified
+/// with its module (`Limits.maxVal`) — is replaced by the referenced integer, as lower bound, upper bound or both, on an
+/// INTEGER component, an INTEGER type assignment, SIZE(..) of an OCTET STRING component, and through a type reference.
+pub fn contract_pipeline_bound_references<C: Ctx>(cx: &mut C) {
+    #[cfg(not(kani))]
+    {
+        let form = cx.choose(3);      // 0 defined in the same module, 1 imported, 2 imported and module-qualified
+        let which = cx.choose(3);     // 0 upper bound, 1 lower bound, 2 both
+        let position = cx.choose(4);  // 0 INTEGER component, 1 INTEGER type assignment, 2 SIZE of an OCTET STRING component, 3 constrained type reference component
+        let (lo_ref, hi_ref) = match form { 2 => ("Limits.minVal", "Limits.maxVal"), _ => ("minVal", "maxVal") };
+        let lo = if which >= 1 { lo_ref } else { "1" };
+        let hi = if which != 1 { hi_ref } else { "20" };
+        let (lo_v, hi_v) = (if which >= 1 { 3 } else { 1 }, if which != 1 { 12 } else { 20 });
+        let c = format!("({lo}..{hi})");
+        let body = match position { 0 => format!("S ::= SEQUENCE {{ f INTEGER {c} }}"), 1 => format!("A ::= INTEGER {c}"), 2 => format!("S ::= SEQUENCE {{ f OCTET STRING (SIZE {c}) }}"), _ => format!("Plain ::= INTEGER S ::= SEQUENCE {{ f Plain {c} }}") };
+        let values = "minVal INTEGER ::= 3 maxVal INTEGER ::= 12";
+        let src = if form == 0 { format!("M DEFINITIONS AUTOMATIC TAGS ::= BEGIN {values} {body} END") }
+                  else { format!("Limits DEFINITIONS AUTOMATIC TAGS ::= BEGIN EXPORTS ALL; {values} END\nM DEFINITIONS AUTOMATIC TAGS ::= BEGIN IMPORTS minVal, maxVal FROM Limits; {body} END") };
+        cx.describe(|| format!("{} {body}", ["values defined in the same module;", "values imported from module Limits;", "values imported from module Limits and written module-qualified;"][form]));
+        let out = crate::Compiler::<crate::generator::rasn::Rasn, _>::new().add_asn_literal(&src).compile_to_string();
+        let Ok(res) = out else { vob!(cx, "C04.pipeline_references.compiles", false); return; };
+        let g = &res.generated;
+        let kw = if position == 2 { "size" } else { "value" };
+        let want = format!("{kw} (\"{lo_v}..={hi_v}\")");
+        let scope: String = match position { 1 => struct_or_enum_attrs(g, "A").unwrap_or_default(), _ => item_of(g, "S").and_then(|(_, fs)| fs.into_iter().next()).unwrap_or_default() };
+        vob!(cx, "C04.pipeline_references.bound_is_the_referenced_value", res.warnings.is_empty() && scope.contains(&want));
+    }
+    #[cfg(kani)]
+    { let _ = cx; }
+}
+
+/// C02 — recursive components are boxed, whole pipeline: the cycle may close directly, through one or two type-reference
+/// assignments (`Link ::= Node`), or through an anonymous nested type below a CHOICE alternative.
+pub fn contract_pipeline_recursion<C: Ctx>(cx: &mut C) {
+    #[cfg(not(kani))]
+    {
+        let shape = cx.choose(5);
+        let optional = cx.any_bool();
+        let opt = if optional { " OPTIONAL" } else { "" };
+        // (source, item, member, expected type of the member)
+        let (src, item, member, inner): (String, &str, &str, &str) = match shape {
+            0 => (format!("Node ::= SEQUENCE {{ val INTEGER, next Node{opt} }}"), "Node", "next", "Box < Node >"),
+            1 => (format!("Node ::= SEQUENCE {{ val INTEGER, next Link{opt} }} Link ::= Node"), "Node", "next", "Box < Link >"),
+            2 => (format!("Node ::= SEQUENCE {{ val INTEGER, next Link{opt} }} Link ::= Mid Mid ::= Node"), "Node", "next", "Box < Link >"),
+            3 => (format!("Node ::= SET {{ val INTEGER, next Link{opt} }} Link ::= Node"), "Node", "next", "Box < Link >"),
+            _ => ("Tree ::= CHOICE { leaf NULL, branch SET { left Sub, right Sub } } Sub ::= Tree".to_string(), "Tree", "branch", "Box < TreeBranch >"),
+        };
+        if !cx.assume(shape != 4 || !optional) { return; }
+        // a required self-reference has no finite value, but the bindings must still be well-formed Rust
+        cx.describe(|| src.clone());
+        let text = format!("M DEFINITIONS AUTOMATIC TAGS ::= BEGIN {src} END");
+        let out = crate::Compiler::<crate::generator::rasn::Rasn, _>::new().add_asn_literal(&text).compile_to_string();
+        let Ok(res) = out else { vob!(cx, "C02.pipeline_recursion.compiles", false); return; };
+        let field = item_of(&res.generated, item).and_then(|(_, fs)| fs.into_iter().find(|f| f.contains(&format!("pub {member} :")) || f.contains(&format!("{member} ("))));
+        let want = if shape == 4 { format!("{member} ({inner})") } else if optional { format!("pub {member} : Option < {inner} >") } else { format!("pub {member} : {inner}") };
+        vob!(cx, "C02.pipeline_recursion.recursive_component_is_boxed", matches!(&field, Some(f) if f.trim_end().ends_with(&want)));
+    }
+    #[cfg(kani)]
+    { let _ = cx; }
+}
+
 /// C02 / C06 — DEFAULT of an INTEGER component, whole pipeline: the default function returns the type of the field, and its
 /// body (a literal, or the constant of a referenced value) has that type.
 pub fn contract_pipeline_integer_defaults<C: Ctx>(cx: &mut C) {
     #[cfg(not(kani))]
     {
         // (declarations before S, component type, default written, field type expected, body expected)
-        let cases: [(&str, &str, &str, &str, &str); 8] = [
+        let cases: [(&str, &str, &str, &str, &str); 11] = [
             ("", "INTEGER (0..255)", "5", "u8", "5"),
             ("", "INTEGER (-5..5)", "-5", "i8", "- 5"),
             ("", "INTEGER", "5", "Integer", "Integer :: from (5i128)"),
@@ -2888,8 +2960,12 @@ pub fn contract_pipeline_integer_defaults<C: Ctx>(cx: &mut C) {
             // a value reference whose own type differs from the component's type
             ("max-val INTEGER ::= 300", "INTEGER (0..65535)", "max-val", "u16", "MAX_VAL"),
             ("Small ::= INTEGER (0..255) max-val Small ::= 200", "INTEGER (0..255)", "max-val", "u8", "MAX_VAL"),
+            // a named number of an unconstrained root type, used through constrained references
+            ("DU ::= INTEGER { uno(1), due(2) }", "DU (0..10)", "due", "DU", "DU (Integer :: from (2i128))"),
+            ("DU ::= INTEGER { uno(1), due(2) } DU2 ::= DU (0..10)", "DU2", "uno", "DU2", "DU2 (DU (Integer :: from (1i128)))"),
+            ("DS ::= INTEGER { uno(1), due(2) } (0..255)", "DS", "due", "DS", "DS (2)"),
         ];
-        let (pre, ty, dflt, want_ty, want_body) = cases[cx.choose(8)];
+        let (pre, ty, dflt, want_ty, want_body) = cases[cx.choose(11)];
         let src = format!("M DEFINITIONS AUTOMATIC TAGS ::= BEGIN {pre} S ::= SEQUENCE {{ f {ty} DEFAULT {dflt} }} END");
         cx.describe(|| format!("{pre} S ::= SEQUENCE {{ f {ty} DEFAULT {dflt} }}"));
         let out = crate::Compiler::<crate::generator::rasn::Rasn, _>::new().add_asn_literal(&src).compile_to_string();
@@ -2900,8 +2976,10 @@ pub fn contract_pipeline_integer_defaults<C: Ctx>(cx: &mut C) {
         vob!(cx, "C06.pipeline_defaults.field_type_is_chosen_from_the_constraint", field_ty == want_ty);
         vob!(cx, "C02.pipeline_defaults.default_function_returns_the_field_type", !ret_ty.is_empty() && ret_ty == field_ty);
         // the body has the declared type: a literal of that type, or a constant declared with that very type
-        let _ = want_body;
-        if body == "MAX_VAL" {
+        if dflt == "uno" || dflt == "due" {
+            // a named number: the literal is wrapped in the newtypes of the chain and has the width of the root type
+            vob!(cx, "C06.pipeline_defaults.named_number_default_has_the_width_of_its_root_type", body == want_body);
+        } else if body == "MAX_VAL" {
             vob!(cx, "C06.pipeline_defaults.referenced_constant_is_declared_with_the_type_the_function_returns", g.contains(&format!("pub const MAX_VAL : {ret_ty} =")));
         } else {
             let n: i128 = dflt.parse().unwrap_or(0);
@@ -3217,7 +3295,7 @@ pub fn contract_pipeline_value_assignments<C: Ctx>(cx: &mut C) {
             7 => { let d = ["4", "C", "A5", "4C0", "F0F"][cx.choose(5)];
                    let bits: Vec<String> = d.chars().flat_map(|c| { let v = c.to_digit(16).unwrap(); (0..4).rev().map(move |k| ((v >> k) & 1 == 1).to_string()) }).collect();
                    (format!("v BIT STRING ::= '{d}'H"), format!("[{}] . into_iter () . collect ()", bits.join(" , "))) }
-            8 => { let (s, lit) = [("plain", "\"plain\""), ("a\"\"b", "\"a\\\"b\""), ("", "\"\""), ("x\"\"\"\"y", "\"x\\\"\\\"y\"")][cx.choose(4)];
+            8 => { let (s, lit) = [("plain", "\"plain\""), ("a\"\"b", "\"a\\\"b\""), ("", "\"\""), ("x\"\"\"\"y", "\"x\\\"\\\"y\""), (", ", "\", \""), (" - ", "\" - \""), (" ", "\" \""), ("two  words ", "\"two  words \"")][cx.choose(8)];
                    (format!("v UTF8String ::= \"{s}\""), format!("String :: from ({lit})")) }
             _ => { let (src, arcs) = [("{ iso member-body 840 }", "1u32 , 2u32 , 840u32"), ("{ itu-t identified-organization 0 5 }", "0u32 , 4u32 , 0u32 , 5u32"), ("{ 1 3 6 1 }", "1u32 , 3u32 , 6u32 , 1u32"), ("{ joint-iso-itu-t 5 }", "2u32 , 5u32")][cx.choose(4)];
                    (format!("v OBJECT IDENTIFIER ::= {src}"), format!("Oid :: const_new (& [{arcs}])")) }
